@@ -12,6 +12,7 @@ from pv.programs import _jsonable
 
 ID = 'C16'
 TITLE = 'remote control == direct control; state changes announced once, in order'
+ANCHORS = ['plumpy.processes:Process.message_receive', 'plumpy.processes:Process.broadcast_receive', 'plumpy.processes:Process._schedule_rpc', 'plumpy.processes:Process.on_entered', 'plumpy.process_comms:RemoteProcessThreadController.pause_process', 'plumpy.process_comms:RemoteProcessThreadController.kill_all', 'plumpy.communications:convert_to_comm', 'plumpy.communications:plum_to_kiwi_future']
 LEVEL = 'exploration'
 TECHNIQUE = ('runtime monitoring by twin differential: a process controlled through an in-process RabbitMQ-shaped communicator (RPC and broadcast '
              'pause/play/kill/status via the real controllers) is compared with a twin receiving the direct call at the logical position where '
